@@ -2,6 +2,10 @@
 use crate::engine::{self, Ctx};
 
 pub mod c01;
+pub mod c03;
+pub mod c04;
+pub mod c09;
+pub mod c14;
 pub mod c19;
 
 macro_rules! table {
@@ -23,6 +27,10 @@ macro_rules! table {
 
 table! {
     "C01" => c01::C01,
+    "C03" => c03::C03,
+    "C04" => c04::C04,
+    "C09" => c09::C09,
+    "C14" => c14::C14,
     "C19" => c19::C19,
 }
 
